@@ -67,6 +67,32 @@ def run(ctx):
                 if not any(p['kind'] == 'impl-violation' for p in ctx.problems):
                     ctx.problem('impl-violation', 'get_cycle_vector(multi-column)', 'detection failed: %r' % e,
                                 input=dict(phase_columns=cols, return_good=rg))
+    # phases right at the top of the range [0, 2pi): the last representable values below 2pi (oracle only: with all cycles
+    # requested the label of a sample is the number of wraps up to it, recomputed from the float input itself)
+    twopi = 2 * np.pi
+    edge_vals = [0.0, 0.25, 1.5, 3.0, 4.5, 6.25, twopi - 1e-6, twopi - 1e-9, float(np.nextafter(twopi, 0))]
+    for k in range(300 if ctx.quick() else 6000):
+        ln = ctx.rng.randint(2, 12)
+        ph = [ctx.rng.choice(edge_vals) for _ in range(ln)]
+        step = ctx.rng.choice([1.5 * np.pi, 2.55, 1.45])
+        exp, cnt = [], 0
+        for i in range(ln):
+            if i > 0 and abs(ph[i] - ph[i - 1]) > step:
+                cnt += 1
+            exp.append(cnt)
+        if cnt == 0:
+            exp = [-1] * ln
+        ctx.count(('edge', tuple(ph), step), cnt > 0, 'edge-valued')
+        ctx.exact_cmp += 1
+        try:
+            with common.time_limit(20):
+                got = [int(v) for v in cycles.get_cycle_vector(np.array(ph), return_good=False, phase_step=step).reshape(-1)]
+        except Exception as e:
+            got = 'raised %r' % e
+        if got != exp:
+            ctx.problem('impl-violation', 'get_cycle_vector(edge-valued phase)', 'phase %s (phase_step %.4g): labels %s, the wraps of the input '
+                        'give %s' % (ph, step, got, exp), input=dict(phase_float=ph, phase_step=step, expected=exp))
+            break
     ctx.nontrivial |= {'enum%d' % i for i in range(ctx.extra.get('nontrivial_enumerated', 0))}
     if bad and not any(p['kind'] == 'impl-violation' for p in ctx.problems):
         b = bad[0]
@@ -82,6 +108,14 @@ def run(ctx):
 
 def replay(rec):
     inp = rec['input']
+    if 'phase_float' in inp:
+        from emd import cycles
+        try:
+            got = [int(v) for v in cycles.get_cycle_vector(np.array(inp['phase_float']), return_good=False, phase_step=inp['phase_step']).reshape(-1)]
+        except Exception as e:
+            got = repr(e)
+        print(got, inp['expected'])
+        return got != inp['expected']
     if 'phase_codes' in inp:
         a, _ = cvx.oracle_all(inp['phase_codes'], CFGS)
         for f in a:
